@@ -325,6 +325,26 @@ class Flow:
                 return (("fmt", v, None, -1),)
             if textual(l) or textual(r):
                 return flatten_fstr(("fstr", parts(l) + parts(r)))
+        if isinstance(n.op, ast.Mod) and l[0] == "const" and isinstance(l[1], str):
+            # "a%sb%d" % (x, y): the same string as f"a{x}b{y}" (%s and %d of the values naunet formats: text and integers)
+            import re as _re
+            args = list(r[1]) if r[0] == "tuple" and not any(e[0] == "star" for e in r[1]) else [r] if r[0] not in ("dict", "list") else None
+            specs = _re.findall(r"%(?:%|[-#0 +]*\d*(?:\.\d+)?[a-zA-Z])", l[1])
+            if args is not None and all(sp in ("%s", "%d", "%i", "%%") for sp in specs) and sum(sp != "%%" for sp in specs) == len(args):
+                out, pos, k = [], 0, 0
+                for m_ in _re.finditer(r"%[sdi%]", l[1]):
+                    if m_.start() > pos:
+                        out.append(("const", l[1][pos:m_.start()]))
+                    if m_.group() == "%%":
+                        out.append(("const", "%"))
+                    else:
+                        a_ = args[k]
+                        k += 1
+                        out.extend([a_] if a_[0] == "const" and isinstance(a_[1], str) else list(a_[1]) if a_[0] == "fstr" else [("fmt", a_, None, -1)])
+                    pos = m_.end()
+                if pos < len(l[1]):
+                    out.append(("const", l[1][pos:]))
+                return flatten_fstr(("fstr", tuple(out)))
         return ("binop", type(n.op).__name__, l, r)
 
     def e_UnaryOp(self, n):
@@ -1207,6 +1227,9 @@ def simp(v):
         for p in v[1]:
             if p[0] == "fmt" and p[2] is None and p[3] == -1:
                 inner = p[1]
+                if inner[0] == "call" and inner[1] == ("global", "str") and len(inner[2]) == 1 and not inner[3]:
+                    inner = inner[2][0]                     # f"{str(x)}" / "a" + str(x) print x
+                    p = ("fmt", inner, None, -1)
                 if inner[0] == "const" and isinstance(inner[1], str):
                     parts.append(inner)
                     continue
@@ -1227,6 +1250,12 @@ def simp(v):
         # getattr(x, "name") is x.name
         if fn == "getattr" and len(args) == 2 and args[1][0] == "const" and isinstance(args[1][1], str) and args[1][1].isidentifier():
             return ("attr", args[0], args[1][1])
+    # [a, *[b, c], d] is [a, b, c, d]
+    if k in ("list", "tuple") and any(e[0] == "star" and e[1][0] in ("list", "tuple") for e in v[1]):
+        out = []
+        for e in v[1]:
+            out.extend(e[1][1] if e[0] == "star" and e[1][0] in ("list", "tuple") else [e])
+        return simp((k, tuple(out)))
     # "ab" * 3
     if k == "binop" and v[1] == "Mult" and {v[2][0], v[3][0]} == {"const"}:
         a, b = v[2][1], v[3][1]
